@@ -266,8 +266,10 @@ func (s *Stream) Stop() {
 		return // Already stopped, return directly
 	}
 	s.startMu.Unlock()
+	verifYieldPoint("stop.flag")
 
 	close(s.done)
+	verifYieldPoint("stop.done")
 
 	// Stop window operations first to prevent new window triggers
 	if s.Window != nil {
@@ -278,6 +280,7 @@ func (s *Stream) Stop() {
 	s.dataChanMux.Lock()
 	s.dataChan = nil
 	s.dataChanMux.Unlock()
+	verifYieldPoint("stop.nil")
 
 	// Stop and clean up data processing strategy resources
 	if s.dataStrategy != nil {
@@ -291,7 +294,9 @@ func (s *Stream) Stop() {
 	// a user sink that blocks forever cannot be interrupted (Go has no goroutine
 	// kill), so it is abandoned after the grace rather than hanging the caller
 	// (e.g. a rulego component Destroy).
+	verifYieldPoint("stop.wait")
 	s.waitLifecycle()
+	verifYieldPoint("stop.joined")
 
 	// 停止 CEP sweeper：数据处理 goroutine 已 join，不再有并发 Process；紧接的 Flush 看到静止引擎。
 	if s.cep != nil {
